@@ -300,6 +300,30 @@ func (w *Walker) bump(o types.Object) {
 	}
 }
 
+// throughIndirection: the operand of an address-of reaches its storage through an explicit pointer dereference or a slice
+// element (`&(*ports)[i]`, `&xs[i]`): whatever is written through the new pointer, the root VARIABLE keeps its value, so
+// what is known about it (it is not nil: it was just dereferenced under a guard) stays known.
+func (w *Walker) throughIndirection(e ast.Expr) bool {
+	for {
+		switch x := ast.Unparen(e).(type) {
+		case *ast.StarExpr:
+			return true
+		case *ast.IndexExpr:
+			if t := w.Info.TypeOf(x.X); t != nil {
+				switch t.Underlying().(type) {
+				case *types.Slice, *types.Pointer:
+					return true
+				}
+			}
+			e = x.X
+		case *ast.SelectorExpr:
+			e = x.X
+		default:
+			return false
+		}
+	}
+}
+
 func (w *Walker) bumpLHS(e ast.Expr) {
 	e = ast.Unparen(e)
 	for {
@@ -346,7 +370,7 @@ func (w *Walker) bumpAssignedIn(n ast.Node) {
 				w.bumpLHS(x.Value)
 			}
 		case *ast.UnaryExpr:
-			if x.Op == token.AND { // address taken: may be written through the pointer
+			if x.Op == token.AND && !w.throughIndirection(x.X) { // address taken: may be written through the pointer
 				w.bumpLHS(x.X)
 			}
 		}
